@@ -1085,3 +1085,139 @@ Theorem bp_untracked_root rd sealg (h : heap) root :
 Proof. intros H. unfold bp_topo. rewrite H. reflexivity. Qed.
 
 End TrackP.
+
+(* the instances of [h_op1] inherit everything; the tracking rule spelled out for two of them *)
+Corollary h_slice_track {A} {SA : Scalar A} (h : @heap A) x index name h' id : h_slice h x index name = (h', Ok id) ->
+  exists n, nth_error h' id = Some n /\ ctx_rule h [x] n /\ nname n = name /\
+    (exists xv, valOf h x = Some xv /\ v_slice xv index = Ok (nval n)) /\
+    (ntracked n = true -> nedges n = [(x, RSliceX id x index)]) /\
+    Forall (fun e => fst e < id) (nedges n).
+Proof. exact (h_op1_track h x (fun v => v_slice v index) (fun y => RSliceX y x index) name h' id). Qed.
+
+Corollary h_math_track {A} {SA : Scalar A} (h : @heap A) fn x name h' id : h_math h fn x name = (h', Ok id) ->
+  exists n, nth_error h' id = Some n /\ ctx_rule h [x] n /\ nname n = name /\
+    (exists xv, valOf h x = Some xv /\ v_unary (mathUnary fn) xv = Ok (nval n)) /\
+    (ntracked n = true -> nedges n = [(x, mathRule fn id x)]) /\
+    Forall (fun e => fst e < id) (nedges n).
+Proof. exact (h_op1_track h x (v_unary (mathUnary fn)) (fun y => mathRule fn y x) name h' id). Qed.
+
+(* the other formulation of wf_heap *)
+Lemma wf_heap_iff {A} (h : @heap A) :
+  wf_heap h <-> (forall c n e, nth_error h c = Some n -> In e (nedges n) -> fst e < c).
+Proof.
+  unfold wf_heap. split.
+  - intros W c n e Hn He. specialize (W c n Hn). rewrite Forall_forall in W. apply W. exact He.
+  - intros W i n Hn. apply Forall_forall. intros e He. eapply W; eauto.
+Qed.
+
+(* ================================================================== *)
+(*  Examples: the hypotheses are satisfiable, the conclusions say something *)
+(* ================================================================== *)
+Module TrackEx.
+Local Open Scope Z_scope.
+
+#[local] Instance Z_scalar : Scalar Z := {|
+  s0 := 0; s1 := 1;
+  sadd := Z.add; ssub := Z.sub; smul := Z.mul; sdiv := Z.div; spow := fun _ _ => 1;
+  sexp := fun a => a; slog := fun a => a; ssin := fun a => a; scos := fun a => a; stan := fun a => a;
+  ssinh := fun a => a; scosh := fun a => a; stanh := fun a => a; ssqrt := fun a => a;
+  smax := Z.max; smin := Z.min; sselgt := Z.max; ssellt := Z.min;
+  seqt := fun a b => if a =? b then 1 else 0; snet := fun a b => if a =? b then 0 else 1;
+  sgt := fun a b => if a >? b then 1 else 0; sge := fun a b => if a >=? b then 1 else 0;
+  slt := fun a b => if a <? b then 1 else 0; sle := fun a b => if a <=? b then 1 else 0;
+  sgeb := fun a b => if a >=? b then 1 else 0; strunc := fun a => a;
+  sofnat := Z.of_nat; sconst := fun m e => m * 10 ^ e;
+  sneginf := -1000000; sposinf := 1000000; srnd := fun _ k => Z.of_nat k
+|}.
+
+Definition vec2 (a b : Z) : tensor Z := mkT [2%nat] (Vec [Sc a; Sc b]).
+
+(* 0: x tracked leaf [3;5];  1: c untracked leaf [1;1];
+   2: m = x.Scale(2);  3,4: internal Broadcasts;  5: y = m.Add(c);  6: q = (x > c);  7: z = c.Scale(3) *)
+Definition e0 : @heap Z := fst (leaf [] (vec2 3 5) true (Some 0%nat)).
+Definition e1 : @heap Z := fst (leaf e0 (vec2 1 1) false (Some 1%nat)).
+Definition e2 : @heap Z := fst (h_scale e1 0 2 (Some 2%nat)).
+Definition e3 : @heap Z := fst (h_arith e2 BiAdd 2 1 (Some 3%nat)).
+Definition e4 : @heap Z := fst (h_cmp e3 BiGt 0 1 (Some 4%nat)).
+Definition e5 : @heap Z := fst (h_scale e4 1 3 (Some 5%nat)).
+
+Definition flags (h : @heap Z) := map (fun n => (ntracked n, ndirty n, map fst (nedges n))) h.
+
+Example ex_results :
+  snd (h_scale e1 0 2 (Some 2%nat)) = Ok 2%nat /\ snd (h_arith e2 BiAdd 2 1 (Some 3%nat)) = Ok 5%nat /\
+  snd (h_cmp e3 BiGt 0 1 (Some 4%nat)) = Ok 6%nat /\ snd (h_scale e4 1 3 (Some 5%nat)) = Ok 7%nat /\
+  flags e5 = [(true, false, []); (false, false, []); (true, false, [0]); (true, false, [2]); (false, false, []);
+              (true, false, [3; 4]); (false, false, []); (false, false, [])]%nat /\
+  erase e5 = [vec2 3 5; vec2 1 1; vec2 6 10; vec2 6 10; vec2 1 1; vec2 7 11; vec2 1 1; vec2 3 3].
+Proof. vm_compute. repeat split. Qed.
+
+Example ex_wf : wf_heap e5.
+Proof.
+  unfold e5, e4, e3, e2, e1, e0.
+  apply h_op1_wf, h_cmp_wf, h_arith_wf, h_op1_wf, leaf_wf, leaf_wf, wf_heap_nil.
+Qed.
+
+(* the hypotheses of the B theorems hold on the example and the conclusion determines the flags *)
+Example ex_arith_track : exists n, nth_error e3 5 = Some n /\ ntracked n = true /\ ndirty n = false /\
+  map fst (nedges n) = [3; 4]%nat.
+Proof.
+  destruct (h_arith_track e2 BiAdd 2 1 (Some 3%nat) e3 5) as (n & Hn & Hr & _ & _ & _ & He & _); [vm_compute; reflexivity|].
+  exists n. split; [exact Hn|]. apply ctx_rule2 in Hr. destruct Hr as [Ht Hd].
+  assert (T : ntracked n = true) by (rewrite Ht; vm_compute; reflexivity).
+  split; [exact T|]. split; [rewrite Hd; vm_compute; reflexivity|]. rewrite (He T). reflexivity.
+Qed.
+
+(* C on the example: the same computation on a heap whose contexts were all reset to untracked *)
+Definition e2' : @heap Z := h_reset (h_reset e2 0 false) 2 false.
+Example ex_values : erase e2' = erase e2 /\ flags e2' <> flags e2 /\
+  snd (h_arith e2' BiAdd 2 1 None) = snd (h_arith e2 BiAdd 2 1 (Some 3%nat)) /\
+  erase (fst (h_arith e2' BiAdd 2 1 None)) = erase e3 /\
+  flags (fst (h_arith e2' BiAdd 2 1 None)) <> flags e3.
+Proof.
+  assert (E : erase e2' = erase e2) by (vm_compute; reflexivity).
+  destruct (h_arith_values e2' e2 BiAdd 2 1 None (Some 3%nat) E) as [Hs He].
+  split; [exact E|]. split; [vm_compute; discriminate|]. split; [exact Hs|]. split; [exact He|].
+  vm_compute; discriminate.
+Qed.
+
+(* D on the example *)
+Example ex_reset : nth_error (h_reset e3 5 false) 5 = Some (mkNode (vec2 7 11) false false None [] (Some 3%nat)) /\
+  nth_error (h_reset e3 5 false) 2 = nth_error e3 2.
+Proof.
+  destruct (h_reset_spec e3 5 false) as (_ & Hs & Ho & _). split.
+  - apply (Hs (mkNode (vec2 7 11) true false None [(3, RId 5); (4, RId 5)]%nat (Some 3%nat))). vm_compute. reflexivity.
+  - apply Ho. discriminate.
+Qed.
+
+(* E1 on the example: the comparison result is an untracked root *)
+Example ex_bp_untracked : bp_topo RedSum (fun _ g => g) e5 6 = (e5, [], Ok tt).
+Proof. apply bp_untracked_root. vm_compute. reflexivity. Qed.
+
+End TrackEx.
+
+Print Assumptions h_op1_frame.
+Print Assumptions h_cmp_frame.
+Print Assumptions h_elsel_frame.
+Print Assumptions h_arith_frame.
+Print Assumptions h_dot_frame.
+Print Assumptions h_matmul_frame.
+Print Assumptions h_patch_frame.
+Print Assumptions h_concat_frame.
+Print Assumptions h_op1_track.
+Print Assumptions h_cmp_track.
+Print Assumptions h_elsel_track.
+Print Assumptions h_arith_track.
+Print Assumptions h_dot_track.
+Print Assumptions h_matmul_track.
+Print Assumptions h_patch_track.
+Print Assumptions h_concat_track.
+Print Assumptions h_arith_wf.
+Print Assumptions h_concat_wf.
+Print Assumptions h_op1_values.
+Print Assumptions h_arith_values.
+Print Assumptions h_dot_values.
+Print Assumptions h_matmul_values.
+Print Assumptions h_concat_values.
+Print Assumptions h_reset_spec.
+Print Assumptions h_reset_wf.
+Print Assumptions bp_untracked_root.
